@@ -40,7 +40,7 @@ def scratch_dir(tag: str = 'run') -> str:
 
 
 def _java_cmd(extra_jvm=(), heap='6g'):
-    return ['java', '-XX:+UseParallelGC', f'-Xmx{heap}', *extra_jvm,
+    return ['java', '-XX:+UseParallelGC', f'-Xmx{heap}', '-Xss512m', *extra_jvm,
             '-cp', f'{JAR}:{CM}']
 
 
@@ -145,7 +145,12 @@ def run_tlc(module: str, cfg_text: str, *, workers: int | str = 'auto',
         elif finished:
             res.ok = True
         else:
-            raise MachineryError(f'TLC failed on {module} (rc={p.returncode}):\n' + out[-6000:])
+            i = out.find('Error:')
+            j = out.find('Error: The error occurred')
+            msg = out[i:i + 1500] if i >= 0 else ''
+            if j >= 0:
+                msg += '\n...\n' + out[j:j + 3500]
+            raise MachineryError(f'TLC failed on {module} (rc={p.returncode}):\n' + (msg or out[-4000:]))
         return res
     finally:
         if not keep:
